@@ -69,14 +69,9 @@ def explore(item, ctx, seed, easy_menu, clauses, quarter=True):
         pos, neg = sorted(pos), sorted(neg)
         pin, nin = np.array(pos[::-1]), np.array(neg[::-1])
         item = dict(item, blocks=f"ladder n={item['ladder']} tie_free={item.get('tie_free', True)}", grid="ladder")
-    elif item["grid"] == "mixed":
-        # integer-dtype positives, float-dtype negatives with non-integral values where the order type allows
-        pos, neg = [], []
-        for i, (a, c) in enumerate(blocks):
-            v = 2 * i if a else 2 * i + 0.5
-            pos += [int(v)] * a
-            neg += [float(v)] * c
-        pin, nin = np.array(pos[::-1], dtype=np.int64), np.array(neg[::-1], dtype=np.float64)
+    elif item["grid"] in ot.MIXED_KINDS:
+        # the two classes in different dtypes (see ordertypes.concretise_mixed)
+        pos, neg, vals, pin, nin = ot.concretise_mixed(blocks, item["grid"])
         pos, neg = [float(x) for x in pos], [float(x) for x in neg]
     elif item["grid"] == "uint":
         pos, neg, vals = ot.concretise(blocks, "uint", seed)
